@@ -72,7 +72,17 @@ class Hooks:
 
     def ext_call(self, it, fn_, args, kwargs, node):
         if fn_.path == "typing.get_type_hints":
-            return DictV()
+            # resolved annotations of the class (base classes first); the raw __annotations__ hold the source text, as
+            # they do under `from __future__ import annotations`
+            out = {}
+            owner = args[0] if args else None
+            if isinstance(owner, ClassV):
+                for c in reversed(owner.mro):
+                    ann = c.ns.get("__annotations__")
+                    for k_, v_ in (ann.items.items() if isinstance(ann, DictV) else ()):
+                        if isinstance(v_, str) and v_ in it.builtins:
+                            out[k_] = it.builtins[v_]
+            return DictV(out)
         return NotImplemented
 
     def on_setattr(self, it, obj, name, v, node):
@@ -104,10 +114,13 @@ def check(ctx):
         "names": (ListV(["a", "b"]), {"writeDefault": False}, "StringArray"),
         "flags": (ListV([True, False]), {}, "BooleanArray"),
         "ids": (ListV([1, 2]), {}, "IntegerArray"),
+        # a type hint that differs from the type of the default decides the topic type (kp: float = tunable(0))
+        "kp": (0, {}, "Double"),
     }
+    HINTS = {"kp": "float"}
 
     def mkclass(name, bases, spec):
-        ns = {"__annotations__": DictV(), "__doc__": None}
+        ns = {"__annotations__": DictV({a: HINTS[a] for a in spec if a in HINTS}), "__doc__": None}
         for a, (default, kw, _) in spec.items():
             ns[a] = it.call(TUN, [default], dict(kw))
         c = ClassV(name, bases, ns, mt, None, name, mutable=True)
